@@ -90,6 +90,9 @@ def project_step(prop, step):
     """step = one ' | '-separated element of an output line -> canonical projected text"""
     toks = step.split(" ")
     outcome = toks[0]
+    if outcome.startswith("panic="):
+        # the model names the Go expression that panics, the runtime prints its own text: compare the fact, not the text
+        outcome = "panic"
     msgs = [t for t in toks[3:] if not t.startswith("st=")]
     recs = []
     for t in toks[3:]:
